@@ -58,12 +58,14 @@ class Executor(Ops2):
         except NeedFork as nf:
             self.stats['forks'] += 1
             base_dec = st.decisions[:st.dpos]
+            st.pending_known = []
             n = len(nf.feas)
             for k, alt in enumerate(nf.feas):
                 child = st if k == n - 1 else st.copy()
                 child.decisions = base_dec + [alt]
                 child.dpos = 0
                 cond = nf.conds[alt]
+                child.model = nf.models.get(alt)
                 self.solver.push()
                 if cond is not True:
                     self.solver.add(cond)
@@ -127,12 +129,19 @@ class Executor(Ops2):
             except GoPanic as gp:
                 if st.decisions:
                     st.decisions = []
+                for (cid, c, v) in st.pending_known:
+                    st.known[cid] = (c, v)
+                st.pending_known = []
                 if self.lenient:
                     raise
                 self.start_panic(st, gp)
                 continue
             if st.decisions:
                 st.decisions = []
+            if st.pending_known:
+                for (cid, c, v) in st.pending_known:
+                    st.known[cid] = (c, v)
+                st.pending_known = []
             if r is None:
                 f.ip += 1
 
@@ -215,7 +224,13 @@ class Executor(Ops2):
             a['proved'] += 1
             return True
         neg = True if c is False else z3.Not(c)
-        r, m = self.check(None if neg is True else neg)
+        if neg is not True and st.model is not None and z3.is_true(st.model.eval(neg, model_completion=True)):
+            r, m = 'sat', st.model
+            self.stats['model_hits'] = self.stats.get('model_hits', 0) + 1
+        else:
+            r, m = self.check(None if neg is True else neg, st)
+            if neg is True and r == 'sat':
+                st.model = m
         if self.opts.get('log_queries') and len(self.queries_log) < self.opts.get('max_logged', 40):
             self.log_query(st, neg, label, r)
         if r == 'unsat':
